@@ -853,6 +853,9 @@ private:
 			{
 				// Pass a copy: the key slot is overwritten when the callback searches for a value by this key
 				auto key = ref;
+				// Keep own copy of the current key: a stream reader returns a view that is valid only until the next read
+				mCurrentKeyBuffer.assign(ref.data(), ref.size());
+				ref = mCurrentKeyBuffer;
 				callback(key);
 			}
 			break;
@@ -943,6 +946,7 @@ private:
 	const size_t mSize;
 	size_t mIndex = 0;
 	MsgPackVariableKey mCurrentKey;
+	std::string mCurrentKeyBuffer;
 };
 
 
